@@ -496,7 +496,8 @@ fn ord_s(o: std::cmp::Ordering) -> &'static str {
 pub fn cmp_line<T: PurlShape + Eq + Ord + Hash>(x: &Made<T>, y: &Made<T>) -> String {
     match (x, y) {
         (Made::Purl(p), Made::Purl(q)) => {
-            format!("{} {}", if p == q { "EQ" } else { "NE" }, ord_s(p.cmp(q)))
+            let can = |x: &GenericPurl<T>| catch_unwind(AssertUnwindSafe(|| h(&x.to_string()))).unwrap_or_else(|_| "!".into());
+            format!("{} {} | {} | {}", if p == q { "EQ" } else { "NE" }, ord_s(p.cmp(q)), can(p), can(q))
         },
         _ => "NA".into(),
     }
